@@ -765,7 +765,10 @@ rt_prop("C02", ["task", "core", "bridge", "comb"],
         "induction over the poll, any fuel and world): poll_keeps_channels_unshared — if every request channel is referenced at most "
         "once by a host-free block and its spawn queue before a poll, so it is afterwards, including requests created and tasks "
         "spawned during the poll; poll_never_adopts_foreign_channel — a poll never makes a task wait on an existing channel it did "
-        "not already wait on. The "
+        "not already wait on. OVER WHOLE RUNS: channels_unshared_over_runs_partial (global invariant `Own`, Lemmas/Own*.lean, "
+        "TasksFrame, SlabSum) — for every task program without combinators held directly by a test and every history of "
+        "resolutions, drops, aborts and polls, every request channel is referenced by at most one suspended or queued task and "
+        "no task references a non-existent channel (partial: nested combinators and the Core/Bridge hosts are not covered). The "
         "whole-run uniqueness of delivery is covered by the correspondence (unique payloads, equal operations, every resolve result "
         "class compared) — oracle keys resolve-result-differs / delivery-differs.")
 rt_prop("C03", ["core", "bridge"],
